@@ -15,6 +15,8 @@ VALS = {"a": 7.0, "b": 3.0, "c": 2.0, "d": 5.0, "e": 11.0}
 
 def ref_env():
     env = dict(VALS)
+    vec = [1.5, 4.0, 0.5]
+    env.update(dict(vsum=sum(vec), vprod=vec[0] * vec[1] * vec[2]))
     env.update(dict(sd_max=max, sd_min=min, sd_abs=abs, sd_sqrt=lambda x: x ** 0.5, sd_exp=math.exp, sd_round=round,
                     sd_If=lambda c, x, y: x if c else y, sd_And=lambda x, y: x and y, sd_Or=lambda x, y: x or y,
                     sd_Not=lambda x: not x))
@@ -24,6 +26,9 @@ def dsl_env(m):
     env = {}
     for k, v in VALS.items():
         el = m.constant(k); el.equation = v; env[k] = el
+    # aggregates of an arrayed element: operators (not binary ones) whose text is a bare chain  v0+v1+v2 / v0*v1*v2
+    v = m.constant("v"); v.setup_vector(3, [1.5, 4.0, 0.5])
+    env.update(dict(vsum=v.arr_sum(), vprod=v.arr_prod()))
     env.update(dict(sd_max=sd.max, sd_min=sd.min, sd_abs=sd.abs, sd_sqrt=sd.sqrt, sd_exp=sd.exp, sd_round=sd.round,
                     sd_If=sd.If, sd_And=sd.And, sd_Or=sd.Or, sd_Not=sd.Not))
     return env
@@ -60,7 +65,7 @@ def run(expr):
 exec(PRELUDE)
 
 BIN = ['+', '-', '*', '/', '**', '%', '<', '>', '<=', '>=']
-NAMES = ['a', 'b', 'c', 'd', 'e']
+NAMES = ['a', 'b', 'c', 'd', 'e', 'vsum', 'vprod']
 
 
 def gen(rnd, depth):
@@ -92,6 +97,12 @@ def exhaustive_depth2():
             for x, y, z in (('a', 'b', 'c'), ('a', '(-2.0)', 'c'), ('3.0', 'b', 'c')):
                 yield '(%s %s (%s %s %s))' % (x, o1, y, o2, z)
                 yield '((%s %s %s) %s %s)' % (x, o2, y, o1, z)
+    for o1 in BIN[:6]:
+        for agg in ('vsum', 'vprod'):
+            yield '(a %s %s)' % (o1, agg)
+            yield '(%s %s a)' % (agg, o1)
+            yield '(-%s)' % agg
+            yield '(2.0 %s %s)' % (o1, agg)
     for o1 in BIN[:6]:
         yield '((-a) %s b)' % o1
         yield '(a %s (-b))' % o1
